@@ -6,6 +6,7 @@ import (
 	"math"
 	"net"
 	"strconv"
+	"strings"
 	"sync"
 	"time"
 
@@ -201,6 +202,14 @@ func c12Life(c *mon.Ctx, r *mon.Rand, force string) {
 		idents[i] = id
 	}
 	nCalls := r.Range(50, 3000)
+	if opts.MaxPacketSizeBytes >= 60000 && force == "" && r.Bool() {
+		// under the largest packet limits: two or three metrics of 33-40 KB each
+		// (beyond what 15 bits count), reported often - no two of them fit together
+		for k, n := 0, r.Range(2, 3); k < n; k++ {
+			idents = append(idents, m3Ident{Kind: []string{"counter", "gauge", "timer"}[k], Name: strings.Repeat("H", r.Range(33000, 40000)), Tags: map[string]string{"huge": strconv.Itoa(k)}})
+		}
+		nIdents = len(idents)
+	}
 	concAlloc := r.Bool()
 	// every tenth lifetime allocates more distinct tag sets than the reporter's
 	// pools hold (4096 pooled tag slices) and reports each of them once more at
